@@ -192,17 +192,17 @@ impl ListType {
         match self {
             ret @ Self::Open(..) => Ok(Cow::Borrowed(ret)),
             Self::Mixed(types) => {
+                let Some(element_ty) = types.first() else {
+                    bail!("cannot know the type of this list, for it is empty")
+                };
+
+                // every element against the type the list is read with: compatibility is not
+                // transitive (`int?` takes `nil`, and `nil` is taken by `str?`)
                 if types
                     .iter()
-                    .as_ref()
-                    .windows(2)
-                    .all(|x| x[0].eq_complex(&x[1], comparison_flags))
+                    .all(|ty| element_ty.eq_complex(ty, comparison_flags))
                 {
-                    if let Some(ty) = types.first() {
-                        Ok(Cow::Owned(ListType::Open(Box::new(ty.clone()))))
-                    } else {
-                        bail!("cannot know the type of this list, for it is empty")
-                    }
+                    Ok(Cow::Owned(ListType::Open(Box::new(element_ty.clone()))))
                 } else {
                     bail!("this is a mixed-type list")
                 }
